@@ -271,6 +271,7 @@ func c03Body(c *ev.Ctx) {
 		}
 		runCases(r, "BN254 compiled circuits: every alternative decomposition v+k*r of every packed 256-bit field (hint adversary)", cases, c03Eval)
 	}
+	runPairIsolation(c, fullCircuitPairs())
 	r.finish("C03")
 	c.Set("rule", "cases = (witness, public input) pairs for the full circuits; A: gnark engine over byte-length classes / block boundaries / single-field perturbations; B: explicit search of the compiled R1CS where bit-decomposition hint sites may answer with any boolean solution v+k*r<2^256 (complete set) or non-boolean digits; non-trivial = reference accepts (public input is the canonical Keccak and the batch is valid)")
 	c.Assume("Keccak reference = golang.org/x/crypto/sha3 legacy Keccak-256; packing reference written from the property statement")
